@@ -64,6 +64,10 @@ pub struct AggregateState {
     pub count: i64,
     pub sum: i64,
     pub sum_float: f64,
+    /// SUM has seen at least one non-NULL input (SUM of no rows / only NULLs is NULL)
+    pub sum_seen: bool,
+    /// SUM has seen a float input (the result is then a float even when it is 0.0)
+    pub sum_is_float: bool,
     pub min_int: Option<i64>,
     pub max_int: Option<i64>,
     pub min_float: Option<f64>,
@@ -76,6 +80,8 @@ impl AggregateState {
             count: 0,
             sum: 0,
             sum_float: 0.0,
+            sum_seen: false,
+            sum_is_float: false,
             min_int: None,
             max_int: None,
             min_float: None,
@@ -95,8 +101,15 @@ impl AggregateState {
             AggregateFunction::Sum { column } => {
                 if let Some(val) = row.get(*column) {
                     match val {
-                        Value::Int(i) => self.sum += i,
-                        Value::Float(f) => self.sum_float += f,
+                        Value::Int(i) => {
+                            self.sum += i;
+                            self.sum_seen = true;
+                        }
+                        Value::Float(f) => {
+                            self.sum_float += f;
+                            self.sum_seen = true;
+                            self.sum_is_float = true;
+                        }
                         _ => {}
                     }
                 }
@@ -149,12 +162,12 @@ impl AggregateState {
         match func {
             AggregateFunction::Count { .. } => Value::Int(self.count),
             AggregateFunction::Sum { .. } => {
-                if self.sum != 0 {
-                    Value::Int(self.sum)
-                } else if self.sum_float != 0.0 {
-                    Value::Float(self.sum_float)
+                if !self.sum_seen {
+                    Value::Null
+                } else if self.sum_is_float {
+                    Value::Float(self.sum as f64 + self.sum_float)
                 } else {
-                    Value::Int(0)
+                    Value::Int(self.sum)
                 }
             }
             AggregateFunction::Avg { .. } => {
